@@ -264,3 +264,7 @@ mod tests {
         Opts::new(format!("{}_{}", "string", "label"), "&str_label");
     }
 }
+
+// Verification hook: unit-level harnesses are compiled as a child module (only with `--cfg prometheus_verif`).
+#[cfg(all(prometheus_verif, any(kani, prometheus_verif_replay)))]
+include!(concat!(env!("PROMETHEUS_VERIF_INCRATE"), "/metrics.rs"));
